@@ -7,7 +7,14 @@ SPEC = {
         # whole server over TCP, mailboxes known by construction, views that still hold messages expunged elsewhere
         # (VerifHold / Barrier), generated SEARCH / UID SEARCH trees (depth <= 6, every key kind, CHARSET variants),
         # with and without WithDisableParallelism; every answer is judged by the Lean model + RFC spec
-        # (judge-c15-search). The witnesses of Theorems/C15.lean are replayed first.
+        # (judge-c15-search). The witnesses of Theorems/C15.lean are replayed first. Directed scenarios of every run
+        # (harness/o_search_directed.go): `dates` = internal dates / Date headers on and one second around midnight
+        # (UTC instant written in +0000 +0530 -0500 +1400, and wall-clock midnight of the zone), all six date keys for the
+        # days of the messages and their neighbours, plain and under NOT, plus the identities ON d = NOT BEFORE d BEFORE d+1
+        # (= SINCE d BEFORE d+1 up to since-zone) on the server's three answers (judge-c15-dayident); `big` = views of
+        # 131 and 257 messages (thorough: also 263 521 1031; primes, so no worker count divides them) whose distinguished
+        # messages are the first and the last of the view, run on the parallel AND the serial server, judged by the model
+        # and compared with each other. Generated worlds also draw dates on day boundaries and date keys from message dates.
         {"name": "c15search", "quick_args": ["-n", "300"], "thorough_args": ["-n", "10000"], "timeout": 1500},
     ],
     "rule": "evaluations = SEARCH / UID SEARCH commands answered by the real server and judged in Lean; "
@@ -17,6 +24,10 @@ SPEC = {
         "hand-written model GluonModel/Model/Search.lean of handleSearch / Mailbox.Search / buildSearchOp* / applySearch / "
         "resolveSeqInterval / resolveUIDInterval / Header.Get, tied to the real server by the wire-level oracle c15search "
         "(differential testing against the model's prediction for the same view and message data, not proof)",
+        "hand-written model GluonModel/Model/SearchSched.lean of the goroutines of parallel.DoContext as a schedule of per-index calls "
+        "(each call writes its own slot); that DoContext hands out every index of the view exactly once is the hypothesis Covers of "
+        "parallel_agrees_with_serial, tied to the real server by the `big` scenarios of the oracle (views of 131 / 257 / … messages on "
+        "the server with parallel evaluation, compared with the model and with the server built with WithDisableParallelism)",
         "reference semantics GluonModel/Spec/SearchSpec.lean (RFC 3501 6.4.4 key by key; INTERNALDATE day = the UTC day the server "
         "reports in FETCH INTERNALDATE; Date-header day = the day named in the header's own zone; envelope keys read as HEADER keys)",
         "abstract message data: size/date (GetMessageDateAndSize), literal (store), header entries and merged values "
@@ -35,11 +46,14 @@ SPEC = {
         "strings.ToLower / bytes.ToLower are modelled on ASCII letters only; the oracle generates cased letters in ASCII only (non-ASCII text is caseless or lower case)",
         "every message of the view is loadable from database and store (gluon keeps messages a live state references; exercised by the "
         "expunged-elsewhere worlds); context cancellation, store/database failures are not modelled",
-        "parallel.DoContext is modelled by the sequential loop (each index writes its own slot); which of several errors is reported is not compared",
+        "parallel evaluation: parallel_agrees_with_serial holds for every schedule that covers the view (Covers); the number of workers "
+        "the real server uses is runtime.NumCPU() / concurrent searches, so on a one-CPU machine the oracle's parallel server takes the "
+        "serial path too (stat worlds.par1.view>=128 counts the large views searched with parallelism enabled); which of several errors is reported is not compared",
         "sequence-number classes owned by C16 are recorded, not judged here: a number above the count answered OK (RFC: BAD), UID n:* above the highest UID",
     ],
     "explanation": "Lean theorems over the SEARCH model for all key trees, views and message data: every answer is ascending and duplicate-free and "
                    "drawn from the view; under the named per-key hypotheses it is exactly the filter of the view by the RFC predicate; NOT = complement, "
+                   "serial = parallel evaluation for every covering schedule, ON d = NOT BEFORE d BEFORE d+1, "
                    "OR = union, list/juxtaposition = intersection, UID SEARCH = same messages by UID; per-key lemmas and witnesses for each deviation. "
                    "The model is tied to the real server by the wire-level oracle, whose every answer is judged in Lean against model and RFC spec.",
 }
